@@ -1,14 +1,14 @@
 (* C08 obligation: gamma at integers ((n-1)!, zoo at n <= 0) and at half-integers: the
-   coefficient of sqrt(pi) satisfies Gamma(1/2) -> 1 and the functional equation
-   c(k+2) = (k/2) c(k) on the range where the 32-bit product does not overflow. *)
+   coefficient c(k) of sqrt(pi) computed by gamma_multiple_2 for Gamma(k/2) satisfies c(1) = 1
+   (Gamma(1/2) = sqrt(pi)) and the functional equation c(k+2) = (k/2) c(k) for EVERY odd k. *)
 From Coq Require Import QArith ZArith List.
-From SE Require Import C08.FuncModel C08.ExactProofs.
+From SE Require Import C08.FuncModel C08.ExactProofs C08.GammaProofs.
 Local Open Scope Z_scope.
 Theorem C08_gamma_exact :
   (gamma_int 1 = Some 1
    /\ (forall n, 0 < n -> exists g, gamma_int n = Some g /\ gamma_int (n + 1) = Some (n * g))
    /\ (forall n, n <= 0 -> gamma_int n = None))
-  /\ (Qeq_bool (gamma_half 1) 1 = true
-      /\ forallb gamma_half_step (odd_range (-19) 20) = true).
-Proof. split; [ exact gamma_int_exact | exact gamma_half_guarded ]. Qed.
+  /\ ((gamma_half 1 == 1)%Q
+      /\ forall k, Z.odd k = true -> (gamma_half (k + 2) == (k # 2) * gamma_half k)%Q).
+Proof. split; [ exact gamma_int_exact | exact gamma_half_exact_all ]. Qed.
 Print Assumptions C08_gamma_exact.
